@@ -2,6 +2,7 @@ import PV.Model.Eval
 import PV.Model.Ops
 import PV.Model.Traverse
 import PV.Driver.GAOps
+import PV.Driver.RewriteOps
 import PV.Driver.PickleOps
 import PV.Driver.DiffOps
 import PV.Driver.CoeffOps
@@ -192,6 +193,7 @@ def handlers : List (Sexp → Option Sexp) :=
    , handleCoeff
    , handleDiff
    , handlePickle
+   , handleRewrite
    -- HANDLERS
   ]
 
